@@ -1,13 +1,23 @@
 #!/bin/sh
-# Offline set-up: syntax/semantic check of every specification module, byte-compile harness.
+# Offline set-up: parse (SANY) every specification module, byte-compile the harness.
 set -e
 cd "$(dirname "$0")"
 mkdir -p .cache evidence replays
-for f in spec/MC_Doc.tla spec/Trace_Doc.tla; do
-  ( cd spec && java -cp /opt/veriftools/tla/tla2tools.jar:/opt/veriftools/tla/CommunityModules-deps.jar tla2sany.SANY "$(basename $f)" >/tmp/verif-sany.$$ 2>&1 ) || true
-  if grep -q "Could not find module TraceData" /tmp/verif-sany.$$; then :; 
-  elif grep -qi "error" /tmp/verif-sany.$$; then cat /tmp/verif-sany.$$; rm -f /tmp/verif-sany.$$; exit 1; fi
-  rm -f /tmp/verif-sany.$$
+T=$(mktemp -d)
+trap 'rm -rf "$T"' EXIT
+cp spec/*.tla "$T"/
+cat > "$T/TraceData.tla" <<'EOT'
+---- MODULE TraceData ----
+EXTENDS Integers, Sequences, TLC
+Events == <<>>
+====
+EOT
+cd "$T"
+for f in MC_*.tla Trace_*.tla; do
+  if ! java -cp /opt/veriftools/tla/tla2tools.jar:/opt/veriftools/tla/CommunityModules-deps.jar tla2sany.SANY "$f" > sany.out 2>&1 || grep -q "^\*\*\* Errors\|Fatal errors" sany.out; then
+    echo "SANY failed on $f"; cat sany.out; exit 1
+  fi
 done
+cd - >/dev/null
 /venv/bin/python -m compileall -q harness >/dev/null
 echo setup-ok
